@@ -81,9 +81,10 @@ CONSTANTS Families,      \* subset of {"hist", "merge", "sds", "sym", "file"}
 \*   SandboxValueCached  a shared instruction object remembers a sandbox dependent value   OwnSandbox
 \*   SymbolValueCached   a shared instruction object remembers a symbol dependent value    OwnSymbols
 \*   LineNumsRangeCached the same, for the range of `filter -line-nums` only (a finding)    OwnSymbols
+\*   PreprocessorArgsAccumulate  the preprocessor of a suite keeps the arguments of earlier cases  ThreeWaysAgree
 DeviationNames == {"EnvNotCopied", "ConfShared", "CwdNotRestored", "SuiteContentsAfter", "Inherited",
                    "OptionIgnored", "BesideIgnored", "SandboxValueCached", "SymbolValueCached",
-                   "LineNumsRangeCached"}
+                   "LineNumsRangeCached", "PreprocessorArgsAccumulate"}
 ASSUME Deviations \subseteq DeviationNames
 Dev(d) == d \in Deviations
 
@@ -301,7 +302,10 @@ SuiteDoc(x, u) == CASE x.fam = "merge" -> (IF u = 0 THEN ProbeDoc("suite", x.s0)
                     [] x.fam = "sds"   -> SdsDoc(x.sk)
                     [] x.fam = "sym"   -> SymDoc(x.sk)
                     [] OTHER           -> EmptyDoc
-SuitePre(x, u) == x.fam = "merge" /\ "conf" \in (IF u = 0 THEN x.s0 ELSE x.s1)     \* [conf] sets a preprocessor
+\* [conf] sets a preprocessor: family merge when the suite has a [conf]; family sym always (SEVERAL cases of one suite
+\* go through the same preprocessor, each with its own file)
+SuitePre(x, u) == \/ x.fam = "merge" /\ "conf" \in (IF u = 0 THEN x.s0 ELSE x.s1)
+                  \/ x.fam = "sym"
 CasesOf(x, u) == IF x.fam = "merge" THEN (IF u = 0 THEN <<1>> ELSE <<2>>)
                  ELSE [j \in 1..NCases(x) |-> j]
 \* the invocations explored for an input: <<way, case (0: all of them)>>
@@ -494,8 +498,10 @@ Finished(id) == /\ idents' = Append(idents, <<cur.c, id>>)
 
 AccessCase ==
     /\ pc = "access"
-    /\ LET own == OwnDoc(inp, cur.c)
-           sc == IF cur.u = None THEN [doc |-> EmptyDoc, pre |-> FALSE] ELSE contrib[cur.u + 1]
+    /\ LET sc == IF cur.u = None THEN [doc |-> EmptyDoc, pre |-> FALSE] ELSE contrib[cur.u + 1]
+           own == IF Dev("PreprocessorArgsAccumulate") /\ sc.pre /\ idents # <<>>
+                  THEN OwnDoc(inp, idents[1][1])      \* the preprocessor is still given the file of the first case
+                  ELSE OwnDoc(inp, cur.c)
            merged == IF Dev("SuiteContentsAfter")
                      THEN [p \in PhaseNames |-> IF p = "cleanup" THEN sc.doc[p] \o own[p] ELSE own[p] \o sc.doc[p]]
                      ELSE [p \in PhaseNames |-> IF p = "cleanup" THEN own[p] \o sc.doc[p] ELSE sc.doc[p] \o own[p]]
